@@ -687,6 +687,15 @@ func (c *e2Client) life(ctx context.Context, wg *sync.WaitGroup, barrier *sync.W
 			if strings.ContainsAny(pre, "\r\x00") || len(pre) > 400 {
 				p.mangled = true // the line is cut or truncated by design; the token may not arrive
 			}
+			// a terminator far into a long body, behind filler the server discards (client-supplied prefix)
+			switch r.choice(fmt.Sprintf("client/%d/hostile2", c.idx), 6) {
+			case 0:
+				line = ":" + strings.Repeat("x", 500+r.choice(fmt.Sprintf("client/%d/fill", c.idx), 300)) + " PRIVMSG #sim :hi" + []string{"\r", "\n", "\x00"}[r.choice(fmt.Sprintf("client/%d/term", c.idx), 3)] + "QUIT :smuggled " + p.token
+				p.mangled = true
+			case 1:
+				line = "PRIVMSG #sim :" + strings.Repeat("y", 505+r.choice(fmt.Sprintf("client/%d/fill", c.idx), 20)) + "\r" + p.token
+				p.mangled = true
+			}
 			r.count("hostile_posts", 1)
 		}
 		if r.prop == "C10" && r.choice(fmt.Sprintf("client/%d/ping", c.idx), 4) == 0 {
